@@ -16,7 +16,9 @@ import (
 	"crypto/ecdsa"
 	"crypto/rand"
 	"crypto/sha256"
+	"encoding/base64"
 	"fmt"
+	"math/big"
 	"net/http"
 	"net/url"
 	"strings"
@@ -136,7 +138,8 @@ func newLeanRig(cfg *refstore.Config, issuerFn func(bool) (op.IssuerFromRequest,
 // single-request operations as a twin no request of this process has carried before, so the verdict on
 // "issue - expire - first use" cannot depend on which other states happened to present the same string earlier
 // (token strings repeat across explored states; what the process remembers per string does not). A twin is
-// only ever made of a dead token, so nothing is demanded of it but refusal.
+// only ever made of a string whose exp has passed, so nothing is demanded of it but refusal. The history
+// "use while valid - expire - use" is an operation of its own (doUseExpireUse) and presents the string as issued.
 func resign(tok string) string {
 	i := strings.LastIndexByte(tok, '.')
 	if i < 0 {
@@ -157,10 +160,29 @@ func resign(tok string) string {
 	return tok[:i] + "." + b64(sig)
 }
 
-// expiredButStored: the record of access token id is still in the store and past its expiry.
-func expiredButStored(st *refstore.State, id string, now time.Time) bool {
-	t, ok := st.Tokens[id]
-	return ok && !now.Before(t.Exp)
+// provSigned: str is a compact JWS whose ES256 signature verifies under the provider's signing key.
+func provSigned(str string) bool {
+	parts := strings.Split(str, ".")
+	if len(parts) != 3 {
+		return false
+	}
+	sig, err := base64.RawURLEncoding.DecodeString(parts[2])
+	pub, ok := keys.KeyForAlg(jose.ES256).Pub.(*ecdsa.PublicKey)
+	if err != nil || !ok || len(sig) != 64 {
+		return false
+	}
+	h := sha256.Sum256([]byte(parts[0] + "." + parts[1]))
+	return ecdsa.Verify(pub, h[:], new(big.Int).SetBytes(sig[:32]), new(big.Int).SetBytes(sig[32:]))
+}
+
+// jwtExp reads the exp claim of a JWT.
+func jwtExp(str string) (time.Time, bool) {
+	claims, _, ok := jwtPayload(str)
+	if !ok {
+		return time.Time{}, false
+	}
+	exp, ok := claims["exp"].(float64)
+	return time.Unix(int64(exp), 0), ok
 }
 
 // ownType is the RFC 8693 token type name a genuine string is presented under at token exchange.
@@ -217,7 +239,7 @@ func (w *world) doUseExpireUse(s S, p []string, router int, doAt func(int) doFn,
 	if !isLive(w.tokClass(tk, s.St, w.now(s))) {
 		return engine.OK(rule, "dead-at-start"), "expiry", in
 	}
-	str := w.str(s, tk) // live: the string as issued
+	str := w.issued(s, tk)
 	before := w.honouredWhere(str, tk, doAt(s.Clock), resp)
 	out := "live-to-the-end"
 	for k := s.Clock + 1; k <= w.last; k++ {
